@@ -158,7 +158,6 @@ func decodeMap(b []byte) map[string]any {
 
 // action types that need an online / voice flow
 var legacyOnlineActions = map[string]bool{"email": true, "send": true, "trigger-flow": true, "channel": true}
-var legacyInteractiveActions = map[string]bool{"add_label": true}
 
 // rule set types that accept arbitrary extra tests
 var openRuleSets = map[string]bool{"wait_message": true, "expression": true, "contact_field": true, "flow_field": true, "form_field": true, "wait_digits": true, "wait_digit": true, "": true}
